@@ -4,7 +4,7 @@
    (bufio + http.ReadRequest: any adaptive sequence of read sizes, any Host answer), utls
    (any server-name answer), AES header protection / AEAD / HKDF (any functions), net.ParseIP,
    strconv.Atoi, sort.Slice (any permutation). *)
-From Hy Require Import model.C17_Sniff proof.C17_Sniff proof.C17_Quic proof.C17_Misc proof.C17_Addr.
+From Hy Require Import model.C17_Sniff model.C17_Assemble proof.C17_Sniff proof.C17_Quic proof.C17_Misc proof.C17_Addr proof.C17_Assemble.
 From Coq Require Import ZArith Permutation.
 Local Open Scope N_scope.
 
@@ -177,6 +177,20 @@ Theorem C17_assemble_never_panics : forall sortf, (forall l, Permutation (sortf 
   is_panic (assemble sortf frames) = false.
 Proof. exact assemble_never_panics. Qed.
 Print Assumptions C17_assemble_never_panics.
+
+(* assembleCryptoFrames hands on only bytes that are present in the datagram: whatever sort.Slice does, a payload is
+   returned either for a single CRYPTO frame (its data), or for several frames that - in the order sort.Slice left them -
+   follow one another from the offset of the first, each starting exactly where the one before ends; the payload then is
+   those frames' data in that order behind (offset of the first) zero bytes.  No stretch between two frames is ever
+   zero-filled, so the ClientHello handed to the server-name parser (C17_udp_rewrite_only_sni) is never one with a hole
+   in it.  (A lowest offset above 0 leaves a zero byte where the handshake type would be; Sniffer.UDP then returns early.) *)
+Theorem C17_assemble_only_present_bytes : forall sortf frames d, assemble sortf frames = Ok (Some d) ->
+  (exists f, frames = [f] /\ d = snd f) \/
+  (exists f0 rest, (2 <= length frames)%nat /\ sortf frames = f0 :: rest /\
+     (0 <= fst f0)%Z /\ chain (fst f0) (f0 :: rest) /\
+     d = repeat x00 (Z.to_nat (fst f0)) ++ frames_data (f0 :: rest)).
+Proof. exact assemble_content. Qed.
+Print Assumptions C17_assemble_only_present_bytes.
 
 (* ReadCryptoPayload and Sniffer.UDP as a whole never panic, for every datagram. *)
 Theorem C17_udp_never_panics : forall hp aead sni sortf,
